@@ -45,7 +45,7 @@ def run_lints(src, reg):
     # document values must leave every pre-existing object as it was, i.e. modify nothing but fresh objects
     for q, c in reg.contracts.items():
         texts = list(c.ensures.values()) + list(c.raises.values()) + list(c.requires.values())
-        if any("doc(" in str(t) or "_parse(" in str(t) for t in texts):
+        if any(re.search(r"\b(doc|doc_has|doc_get|doc_is_map|json_parse|yaml_parse|bson_parse|pickle_parse)\(", str(t)) for t in texts):
             extra = [m for m in c.modifies if m not in ("fresh", "ncalls")]
             if extra:
                 problems.append({"rule": "doc-contracts-are-pure", "detail": "%s mentions document values but modifies %s" % (q, extra)})
